@@ -569,11 +569,7 @@ func rangeIndex(f *ssa.Function, base, idx ssa.Value, at ssa.Instruction) bool {
 		if !ok || bo.Op != token.LSS || bo.X != idx {
 			continue
 		}
-		call, ok := bo.Y.(*ssa.Call)
-		if !ok {
-			continue
-		}
-		if bi, ok := call.Call.Value.(*ssa.Builtin); !ok || bi.Name() != "len" || call.Call.Args[0] != base {
+		if !boundCoversLen(f, bo.Y, base) {
 			continue
 		}
 		if edgeDominates(b, b.Succs[0], at.Block()) {
@@ -581,6 +577,60 @@ func rangeIndex(f *ssa.Function, base, idx ssa.Value, at ssa.Instruction) bool {
 		}
 	}
 	return false
+}
+
+// boundCoversLen: idx < bound implies idx < len(base): bound is len(base) (the
+// same value, or the same unassigned access path loaded again, possibly hoisted
+// into a local), or base was made with that length.
+func boundCoversLen(f *ssa.Function, bound, base ssa.Value) bool {
+	lenArg := func(v ssa.Value) ssa.Value {
+		call, ok := stripConv(v).(*ssa.Call)
+		if !ok {
+			return nil
+		}
+		if bi, ok := call.Call.Value.(*ssa.Builtin); !ok || bi.Name() != "len" || len(call.Call.Args) != 1 {
+			return nil
+		}
+		return call.Call.Args[0]
+	}
+	if z := lenArg(bound); z != nil && sameSliceValue(f, z, base) {
+		return true
+	}
+	if ms, ok := stripConv(base).(*ssa.MakeSlice); ok {
+		if ms.Len == bound || stripConv(ms.Len) == stripConv(bound) {
+			return true
+		}
+		if z, z2 := lenArg(bound), lenArg(ms.Len); z != nil && z2 != nil && sameSliceValue(f, z, z2) {
+			return true
+		}
+	}
+	return false
+}
+
+// sameSliceValue: a and b are the same SSA value, or loads of the same access
+// path that the function never assigns (so both loads see the same slice).
+func sameSliceValue(f *ssa.Function, a, b ssa.Value) bool {
+	a, b = stripConv(a), stripConv(b)
+	if a == b {
+		return true
+	}
+	pa, ok1 := pathOf(a)
+	pb, ok2 := pathOf(b)
+	if !ok1 || !ok2 || len(pa.Elems) == 0 || pa.Root != pb.Root || strings.Join(pa.Elems, ".") != strings.Join(pb.Elems, ".") {
+		return false
+	}
+	last := pa.Elems[len(pa.Elems)-1]
+	assigned := false
+	eachInstr(f, func(_ *ssa.BasicBlock, _ int, ins ssa.Instruction) {
+		if st, ok := ins.(*ssa.Store); ok {
+			if fa, ok := st.Addr.(*ssa.FieldAddr); ok && fieldName(fa) == last {
+				if p, ok := pathOfAddr(fa); ok && p.Root == pa.Root {
+					assigned = true
+				}
+			}
+		}
+	})
+	return !assigned
 }
 
 // isPoolKeyString: s is the key of a successful pool look-up dominating `at`,
